@@ -65,6 +65,10 @@ EXPLANATION += (
     ' Round 5: gene positions stored with an explicitly chosen integer type are sized from the list they index (R-CAP/index-dtype); settings are forwarded (R-FWD).'
 )
 
+EXPLANATION += (
+    ' Round 6: a rejection for an empty marker list of the cache also looks at the number of children (R-GUARD/empty-list-rejection).'
+)
+
 RULE_TEXT = (
     "one obligation per cache-path argument, per indexed comprehension, "
     "per cache dataset, per log conditional, per error condition, per "
@@ -88,6 +92,7 @@ def check(ctx):
     check_identity_assert(ctx)
     check_errors(ctx)
     check_single_child(ctx)
+    check_empty_list_rejections(ctx)
     check_patch_restricted(ctx)
     check_deepest_first(ctx)
     check_lists_consulted_follow_tree(ctx)
@@ -699,3 +704,104 @@ def check_lists_consulted_follow_tree(ctx):
     if n < 3:
         raise AnalysisError('validate_marker_lookup: only {n} reads of the '
                             'marker table found')
+
+
+def check_empty_list_rejections(ctx):
+    """a parent with a single child needs no markers, so its list may be
+    empty (the documentation says so for the root, too).  Wherever the
+    mapping path rejects a run because a marker list read from the cache
+    is empty, the number of children has to be part of the decision: a
+    rejection on emptiness alone refuses taxonomies the property says are
+    mapped."""
+    db = ctx.db
+    rule = 'R-GUARD/empty-list-rejection'
+    roots = ['type_assignment.election_runner:run_type_assignment_on_h5ad',
+             'cli.from_specified_markers:_run_mapping']
+    closure = ctx.cg.reachable([r for r in roots if r in db.functions])
+    n_fn = n_rej = 0
+    for q in sorted(closure):
+        fi = db.functions.get(q)
+        if fi is None or fi.module.short.startswith(('gpu_utils',)):
+            continue
+        n_fn += 1
+        cfg = None
+        for node in ast.walk(fi.node):
+            if not isinstance(node, ast.Raise):
+                continue
+            # the tests this raise sits under
+            tests = []
+            p_ = getattr(node, '_parent', None)
+            while p_ is not None and p_ is not fi.node:
+                if isinstance(p_, ast.If):
+                    tests.append(p_)
+                p_ = getattr(p_, '_parent', None)
+            if not tests:
+                continue
+            if cfg is None:
+                cfg = cfg_of(fi)
+                rd = rd_of(fi)
+            empties = []
+            children_seen = False
+            for iff in tests:
+                ns = [x for x in cfg.nodes_of(iff) if x.kind == 'if'
+                      and x.id in rd.live]
+                if not ns:
+                    continue
+                sl = backward_slice(fi, iff.test, ns[0].id)
+                if sl.has_call('children') or sl.has_call(
+                        'children_as_leaves'):
+                    children_seen = True
+                if _is_emptiness_of_cache_list(fi, iff.test, sl):
+                    empties.append(iff)
+            if not empties:
+                continue
+            n_rej += 1
+            ctx.touch(fi)
+            ctx.ob(rule, f'{fi.qual}:raise#{n_rej - 1}', fi.loc(node),
+                   children_seen,
+                   'the rejection also looks at the number of children'
+                   if children_seen else
+                   f'`{unparse(empties[0].test)[:60]}` rejects the run '
+                   'because a marker list of the cache is empty, without '
+                   'looking at the number of children of that parent: a '
+                   'parent (or root) with a single child may have no '
+                   'markers')
+    ctx.ok(rule + '/scan', 'mapping path', 'package',
+           f'{n_fn} functions reachable from the mapping entry points '
+           f'scanned, {n_rej} rejection(s) on an empty marker list',
+           nontrivial=False)
+
+
+def _is_emptiness_of_cache_list(fi, test, sl):
+    """`len(x) == 0`, `x.shape[0] == 0`, `x.size == 0`, `not x` where x
+    is read from an HDF5 file opened on a marker-cache path"""
+    ok_shape = False
+    for c in ast.walk(test):
+        if isinstance(c, ast.Compare) and len(c.ops) == 1 and isinstance(
+                c.ops[0], (ast.Eq, ast.Lt, ast.LtE)) and isinstance(
+                    c.comparators[0], ast.Constant) \
+                and c.comparators[0].value in (0, 1):
+            if isinstance(c.ops[0], ast.Lt) and c.comparators[0].value != 1:
+                continue
+            if isinstance(c.ops[0], ast.LtE) and c.comparators[0].value != 0:
+                continue
+            if isinstance(c.ops[0], ast.Eq) and c.comparators[0].value != 0:
+                continue
+            ok_shape = True
+        if isinstance(c, ast.UnaryOp) and isinstance(c.op, ast.Not) \
+                and isinstance(c.operand, (ast.Name, ast.Subscript,
+                                            ast.Attribute)):
+            ok_shape = True
+    if not ok_shape:
+        return False
+    # derives from an h5py.File(...) on a parameter that names a marker
+    # cache
+    for c in sl.calls:
+        f = c.func
+        nm = f.attr if isinstance(f, ast.Attribute) else (
+            f.id if isinstance(f, ast.Name) else None)
+        if nm == 'File' and c.args:
+            for x in ast.walk(c.args[0]):
+                if isinstance(x, ast.Name) and 'marker' in x.id:
+                    return True
+    return False
